@@ -76,6 +76,11 @@ func handleUIDFetch(deps ServerDeps, conn net.Conn, tag string, parts []string, 
 	uidSequence := parts[3]
 	items := strings.Join(parts[4:], " ")
 
+	if message.HasSignedPartial(items) {
+		deps.SendResponse(conn, fmt.Sprintf("%s BAD Invalid partial range", tag))
+		return
+	}
+
 	// Ensure UID is always in the items list
 	itemsUpper := strings.ToUpper(items)
 	if !strings.Contains(itemsUpper, "UID") {
